@@ -15,6 +15,8 @@ META = {
 
 REQUIRED_COVERS = {"any": profiles.REQUIRED["C07"]}
 
+CROSSCHECK = {"thorough": 8}
+
 
 def sim(p, ctx):
     M = run_sim(p, ctx)
@@ -58,4 +60,12 @@ def obligations(tier, seed):
         o2["params"] = [[n, max(lo, narrow[n][0]) if n in narrow and narrow[n][0] <= hi else lo, min(hi, narrow[n][1]) if n in narrow and narrow[n][0] <= hi else hi] for n, lo, hi in ob["params"]]
         o2["params"] = [[n, lo, hi] if n != "pa1" else [n, 3, 3] for n, lo, hi in o2["params"]] + [["k", 0, 6]]
         obs.append(o2)
+    # unit_time = 2: the clock advances by two per step, the logs still have one entry per step
+    for ob in profiles.p_cost(thorough, timeout=900 if thorough else 150):
+        if "fac=0" not in ob["name"]:
+            continue
+        spec = dict(ob["cube"]["spec"])
+        spec["run"] = dict(spec["run"], unit_time=2, max_time=16)
+        obs.append(dict(ob, name="unit2/" + ob["name"], cube={"spec": spec}, engine="zsym",
+                        params=[[n, lo, min(hi, 2)] if n in ("c0", "c1", "w0", "w1") else [n, lo, hi] for n, lo, hi in ob["params"]]))
     return profiles.split_param(obs, "k")
